@@ -43,14 +43,14 @@ mod wide;
 #[path = "c01_x.rs"]
 mod x;
 
-pub const IMPORTS_A: &str = "From ZV.C01 Require Import Model ModelCtx ModelSer.\n";
-/// ops 1-6 ModelCtx.v, 7-10 ModelSer.v
-pub const DISPATCH_A: &str = "(if op <? 7 then run_case_a op a b else run_case_ser op a b)";
+pub const IMPORTS_A: &str = "From ZV.C01 Require Import Model ModelCtx ModelSer ModelNew.\n";
+/// ops 1-6 ModelCtx.v, 7-10 ModelSer.v, 11 ModelNew.v
+pub const DISPATCH_A: &str = "(if op <? 7 then run_case_a op a b else if op <? 11 then run_case_ser op a b else run_case_new op a b)";
 pub const HEADER_A: &str = r#"From ZV.Common Require Import Base Run.
-From ZV.C01 Require Import Model ModelCtx ModelSer.
+From ZV.C01 Require Import Model ModelCtx ModelSer ModelNew.
 Open Scope N_scope.
 Definition case_t : Type := N * list N * list N * list N.
-Definition run_case (op : N) (a b : list N) : list N := if op <? 7 then run_case_a op a b else run_case_ser op a b.
+Definition run_case (op : N) (a b : list N) : list N := if op <? 7 then run_case_a op a b else if op <? 11 then run_case_ser op a b else run_case_new op a b.
 Definition ok (c : case_t) : bool :=
   let '(op, a, b, expect) := c in eqb_ln (run_case op a b) expect.
 "#;
@@ -252,9 +252,12 @@ fn obs(r: &Result<Vec<u8>, String>) -> Vec<u128> {
 }
 impl Cx {
     fn coq(&mut self, op: u32, a: Vec<u128>, b: &[u8], expect: Vec<u128>, what: &str, force: bool) {
+        self.coq_w(op, a, b, expect, what, force, 6000)
+    }
+    fn coq_w(&mut self, op: u32, a: Vec<u128>, b: &[u8], expect: Vec<u128>, what: &str, force: bool, max_weight: usize) {
         let cap = (coq_cap(op, self.cat, self.th) * self.coq_share + 99) / 100;
         let weight = a.len() + b.len() + expect.len();
-        if weight > 6000 { return; }
+        if weight > max_weight { return; }
         let used = self.coq_used.entry(op).or_insert(0);
         if !force && *used >= cap { return; }
         *used += 1;
@@ -554,7 +557,10 @@ fn case_ctx(cx: &mut Cx, order: u64, train: &[u8], data: &[u8], xn_mask: u32, fo
     match guarded(|| es(ContextualHuffmanEncoder::new(train, order_of(order)))) {
         Err(p) => { let mut c = cj.clone(); c["cell"] = json!(cell); cx.eval(&cell, &cj.to_string(), true); cx.fail(&cell, None, c, &format!("constructor panicked: {}", p)); }
         Ok(Err(_)) => cx.dist("constructor_refused"),
-        Ok(Ok(enc)) => judge_encoder(cx, "ctx", enc, &cj, data, xn_mask, force),
+        Ok(Ok(enc)) => {
+            if let Some(v) = view_of(&enc) { x::ctx_new_case(cx, order, train, &v, force); }
+            judge_encoder(cx, "ctx", enc, &cj, data, xn_mask, force)
+        }
     }
 }
 
@@ -863,6 +869,23 @@ pub fn run_cells(sum: &mut Summary, shards: &mut CoqShards, rng: &mut Rng, args:
             }), 4, 1));
         }
     }
+    // 3b. the counting loops of the constructors: short trainings (the order fallbacks), every byte as an order-1 context,
+    // order-2 trainings with fewer and more than 1024 distinct contexts (ties at the cut)
+    jobs.push((Box::new(move |cx: &mut Cx, rng: &mut Rng| {
+        let mut ts: Vec<Vec<u8>> = vec![vec![], vec![7], vec![7, 7], vec![0, 255], vec![1, 2, 3], vec![9, 9, 9], TEXT.to_vec()];
+        ts.push((0..=255u8).chain(0..=255u8).collect());
+        ts.push(rng.bytes(1500));
+        ts.push(rng.bytes(1100));
+        { let al = alphabet(rng, 40); ts.push(payload(rng, 1, 3000, &al)); }
+        { let al = alphabet(rng, 34); ts.push(payload(rng, 0, 2500, &al)); }
+        { let al = alphabet(rng, 33); ts.push(payload(rng, 0, 1030, &al)); }
+        for t in ts.iter() {
+            for order in 0..3u64 {
+                let x: Vec<u8> = if t.len() > 300 { t[..50].iter().rev().cloned().collect() } else { t.iter().rev().cloned().collect() };
+                case_ctx(cx, order, t, &x, 0, false);
+            }
+        }
+    }), 100, 1));
     // 4. random cases
     for chunk in 0..(if th { 300 } else { 30 }) {
         jobs.push((Box::new(move |cx: &mut Cx, rng: &mut Rng| {
